@@ -7,7 +7,7 @@ redefine / attribute histories), which is what makes a different process count o
 program text differs -- comparable: all of them must produce the logical content the same model holds."""
 import copy, json, random
 import vlib, datagen, datacheck, filegen, filecheck, mpgen
-import c01, c05
+import c01, c05, hintscheck
 
 PID = "C10"
 
@@ -194,10 +194,15 @@ def run(tier, seed):
         exF.append(e)
     rF = filecheck.run(PID, tier, seed, exF, mcF, "", sink=sink)
 
+    # ---- family H: the hint values reported back are the ones in force (Hints.tla), 1-2 processes
+    rH = hintscheck.run(PID, tier, seed)
+    violations += rH["violations"]
+
     for fam, r in (("A", rA), ("C", rC), ("N", rN), ("M", rM), ("F", rF)):
         for v in r["violations"]:
             violations.append(dict(v, sig="family=%s;%s" % (fam, v["sig"])))
         cov_parts[fam] = {k: r["coverage"].get(k) for k in ("evaluations", "traces_validated_against_impl", "trace_states", "rejected_first_pass")}
+    cov_parts["H"] = rH["coverage"]
     all_execs = exA + exC + exN + exM + exF
     byx = {e["x"]: e for e in all_execs}
 
@@ -216,10 +221,10 @@ def run(tier, seed):
                            "replay": rp,
                            "what": "step %s of program %s gives a different outcome under configuration %s than under %s" % (
                                ev.get("k"), prog, ev.get("c"), first.get("c"))})
-    cov = {"states": cmc["stats"].get("distinct", 0) + mcD["stats"].get("distinct", 0) + mcM["stats"].get("distinct", 0) + mcF["stats"].get("distinct", 0),
+    cov = {"states": rH["mc"]["stats"].get("distinct", 0) + cmc["stats"].get("distinct", 0) + mcD["stats"].get("distinct", 0) + mcM["stats"].get("distinct", 0) + mcF["stats"].get("distinct", 0),
            "transitions": mcD["stats"].get("generated", 0) + mcM["stats"].get("generated", 0) + mcF["stats"].get("generated", 0),
            "traces_validated_against_impl": sum(p["traces_validated_against_impl"] or 0 for p in cov_parts.values()),
-           "evaluations": len(all_execs), "distinct_nontrivial": len({e["prog"] for e in all_execs}),
+           "evaluations": len(all_execs) + len(rH["execs"]), "distinct_nontrivial": len({e["prog"] for e in all_execs}),
            "programs_compared_across_configurations": len(acc), "config_trace_states": st,
            "families": cov_parts,
            "configurations": {"A": [c[0] for c in CFG_A], "N": [c[0] for c in CFG_N], "M": {str(k): [c[0] for c in v] for k, v in CFG_M.items()},
@@ -228,7 +233,9 @@ def run(tier, seed):
            "rule": "each generated program (TLC -simulate walks of Access_MC, Nonblock_MC, MP_MC, File_MC) is executed under every "
                    "configuration of its family; every trace is validated against the configuration-free specification, and for each "
                    "(program, process count) the projected outcomes of all steps under all configurations are validated against "
-                   "Config.tla (must coincide); distinct_nontrivial counts (program, process count) pairs",
+                   "Config.tla (must coincide); distinct_nontrivial counts (program, process count) pairs; family H: random walks of "
+                   "Hints_MC (requested hints x enddef alignment arguments x variable kinds x redefinitions x reopen) whose "
+                   "inq_file_info reports and reported layouts are validated against Hints.tla",
            "exhaustive": False}
     return {"level": "model_checking", "coverage": cov, "violations": violations,
             "assumptions": ["configurations are the documented performance/layout-only settings listed in coverage.configurations; "
@@ -239,6 +246,8 @@ def run(tier, seed):
 
 def replay(path):
     r = json.load(open(path))
+    if r.get("kind") == "hints":
+        return hintscheck.replay(PID, path)
     if r.get("kind") != "config":
         ex = r["exec"]
         fam = ex["x"][0]
